@@ -222,6 +222,7 @@ int main(void)
         char opa[16], opb[16], init[16]; int k, j = 0, c1 = 0, c2 = 0, gw = 0, stuck = 0; double stuck_after = 20.0;
         if (sscanf(line, "m %15s %15s %d %15s %d %d %d %d %lf", init, opa, &k, opb, &j, &c1, &c2, &gw, &stuck_after) < 5) { printf("ERR parse\n"); fflush(stdout); continue; }
         alarm(300);
+        double t_probe = now();
         aligned_t *w = &arena[next_word]; next_word += 8;
         if (next_word > (1 << 16) - 16) { printf("ERR arena\n"); fflush(stdout); continue; }
         *w = 5;
@@ -279,7 +280,7 @@ int main(void)
         }
         printf("stuck=%d early=%d adone=%d gret=%d atA=%s atB=%s seqA=", stuck, b_early, a_done3, g_ret, HD[0].kind >= 0 ? sp_name[HD[0].kind] : "-", HD[1].kind >= 0 ? sp_name[HD[1].kind] : "-");
         show_seq(&HD[0]); printf(" seqB="); show_seq(&HD[1]);
-        printf("\n");
+        printf(" ms=%d\n", (int)((now() - t_probe) * 1000.0));
         fflush(stdout);
         if (stuck) _exit(4);
     }
